@@ -26,7 +26,7 @@ PROPS = {
     "C03": {
         "bin": "px_cost", "parts": [{"bin": "px_cost"}, {"bin": "px_load"}], "budget_ms": 3000, "mem_cap_mb": 1024, "judge_budget": True, "wall_cap": {"quick": 600, "thorough": 2400},
         "rule": "complete control-function table: CSI final 0x40..0x7E x 8 intermediates x parameter tuples of length 0..6 over {1,0,H,W,2^16,10^6,2^31-1} with <=2 (thorough <=3, full for <=4 parameters) "
-                "positions different from 1, in 5 start contexts (fresh, scrollback, top/bottom margins, all margins, and the non-terminal buffer the file loaders use) on 80x25 and 132x60, a second family 'state-setting command then work probe' (every row with <=1 parameter away from its default, resize / margin pairs of extremes, followed by 9 probes whose cost is bounded by the state left behind) in the terminal and the file-loader context; plus explicit shape lists (DCS macro repeat / recursion shapes, macros under huge ids followed by the macro-space reports, sixel raster/repeat/colour headers, Avatar repeat and goto byte pairs, "
+                "positions different from 1, in 5 start contexts (fresh, scrollback, top/bottom margins, all margins, and the non-terminal buffer the file loaders use) on 80x25 and 132x60, a second family 'state-setting command then work probe' (every row with <=1 parameter away from its default, resize / margin pairs of extremes, followed by 9 probes whose cost is bounded by the state left behind) in the terminal and the file-loader context; plus explicit shape lists (DCS macro repeat / recursion shapes, macros made of 64 / 4000 / 65535 commands that each do a screen of work (REP IL DL ICH DCH ECH SD SU DECFRA ED DECERA LF CUD RI), macros under huge ids followed by the macro-space reports, sixel raster/repeat/colour headers, Avatar repeat and goto byte pairs, "
                 "PSF1/PSF2/raw font payload headers, music/OSC/SGR numbers); per case CPU, peak heap and allocation-scaling are measured in the worker; non-trivial = the input made the engine allocate",
         "level_text": "every row of the control-function table (deviation-bounded) and every listed header shape is executed on the real parsers under a counting allocator and a CPU clock; nothing is sampled",
         "level_note": "limits: 0.5 s CPU and 64 MiB peak live heap per input (legitimate work measured at <1 ms / <3 MiB); the file-header part of the property is covered by the C02 fault engine's header-extreme stratum under the same limits",
@@ -84,7 +84,7 @@ PROPS = {
     },
     "C09": {
         "bin": "px_stream", "budget_ms": 1500, "wall_cap": {"quick": 600, "thorough": 2400},
-        "rule": "same explorer as C01 minus text-area resize tokens, plus every token pair repeated until 3*H line changes happened (deterministic replacement of the random scrollback-filling streams); "
+        "rule": "same explorer as C01 minus text-area resize tokens, plus every token pair repeated until 3*H line changes happened (deterministic replacement of the random scrollback-filling streams); a stratum of control sequences with resize-like parameters ended by every byte except t, followed by every printable byte (by the grammar of control sequences none of them requests a resize: a resize there is a violation); "
                 "invariant monitor after every character; non-trivial = the run produced at least one error value; states = distinct observable end states",
         "level_text": "invariant (cursor inside the visible window; fixed 40x24 grid for Viewdata/Mode 7) evaluated after every character of every explored sequence on the real parsers",
         "level_note": "depth <=3 tokens beyond a context; monitoring stops after a ResizeTerminal action; W,H are read from TerminalState and must stay what the emulation was started with, first visible line from Buffer",
@@ -156,8 +156,8 @@ PROPS = {
     "C16": {
         "bin": "px_palette", "budget_ms": 20000, "wall_cap": {"quick": 600, "thorough": 2400},
         "rule": "histories: every sequence of <=4 operations over 18 insert/set instances (a colour already present, new colours, indices 0, 5, len, len+2) from 4 start palettes (empty, DOS 16, 300 colours with a duplicate, named colours), "
-                "oracle after every step; every sequence of <=3 (thorough 4) colour-selecting control functions (incl. OSC 4 slot redefinition of slots 1, 16, 17 and 255) through the real ANSI parser with a character printed after each (earlier cells must keep their colour); "
-                "files: 5 formats x (n=1: all 343 colours over 7 levels x 6x6 title/description texts x 2 authors x names on/off; n in {0,2,16,17,256,300} x 6 descriptions x names on/off; thorough: all 2^24 colours) ; all 64^3 six-bit colours",
+                "oracle after every step; every sequence of <=3 (thorough 4) colour-selecting control functions (incl. OSC 4 slot redefinition of slots 1, 16, 17 and 255, the 16 colour SGR codes, and 15 malformed colour requests - no index, empty index, index beyond the table, components above 255, a selector that is neither foreground nor background - which must leave palette and current colours as they are) through the real ANSI parser with a character printed after each (earlier cells must keep their colour); "
+                "files: 5 formats x (n=1: all 343 colours over 7 levels x 8x8 title/description texts (two of them with line breaks followed by what looks like a colour line) x 2 authors x names on/off; n in {0,2,16,17,256,300} x 8 descriptions x names on/off; thorough: all 2^24 colours) ; all 64^3 six-bit colours",
         "level_text": "all operation histories up to the depth bound and the complete small-scope file menu are executed on the real Palette / parser / exporters / importers and compared with a list-of-RGB reference",
         "level_note": "'returns its existing index' is read as: an index that already resolved to that RGB before the call; Ase format is not implemented in the engine (todo!) and outside the five named formats",
         "technique": "bounded exhaustive exploration of operation histories against a reference model + complete small-scope round-trip enumeration",
